@@ -46,4 +46,10 @@ pub(super) trait Protocol: std::fmt::Debug + Send + Sync {
     fn local_path(&self) -> Option<PathBuf> {
         None
     }
+
+    /// The wall clock of a simulated world, if this protocol belongs to one.
+    #[cfg(feature = "verif_hooks")]
+    fn verif_now_second(&self) -> Option<i64> {
+        None
+    }
 }
